@@ -287,6 +287,12 @@ func init() {
 			}
 			specs = append(specs, seqSpec{Cfg: "wide/bytewise", Alpha: c01Alpha, Depth: depth, Checks: "db", Mode: "bloom1"},
 				seqSpec{Cfg: "wide/bytewise", Alpha: c01Alpha, Depth: depth, Checks: "db", Mode: "b10-then-b64alt"})
+			// tables with several data blocks (hence several filter partitions): the settings whose
+			// effect depends on which partition is consulted
+			for _, m := range []string{"exact", "exact-lg1-then-lg5", "exact-lg5-then-lg1", "exact-then-none+alt"} {
+				specs = append(specs, seqSpec{Cfg: "wide/bytewise", Alpha: c01Alpha, Depth: depth, Checks: "db", Mode: m},
+					seqSpec{Cfg: "mixed/bytewise", Alpha: c01RichAlpha, Depth: depth, Checks: "db", Mode: m})
+			}
 			layouts := map[string]int{}
 			exh := true
 			for _, sp := range specs {
